@@ -161,7 +161,7 @@ def tiling_identities(ctx):
     f = ctx.func('__init__.MultipartDownloader._download_range')
     cs = [c for c in own_calls(f.node) if (dotted(c.func) or '').endswith('_calculate_range_param')]
     cur = [v for st, v in q.local_defs(f, 'current_index') if isinstance(st, ast.Assign) and isinstance(v, ast.AST)]
-    ok = len(cs) == 1 and len(cur) == 1 and equal(cur[0], f'{norm(cs[0].args[1])} * {norm(cs[0].args[0])}')
+    ok = len(cs) == 1 and bool(cur) and all(equal(v, f'{norm(cs[0].args[1])} * {norm(cs[0].args[0])}') for v in cur)
     ctx.ob(f, 'current_index = part_index * part_size (start of the requested range)', ok, f'found {[norm(v) for v in cur]} vs range({", ".join(norm(a) for a in cs[0].args) if cs else ""})')
     f = ctx.func('__init__.MultipartDownloader._download_file_as_future')
     npd = [v for st, v in q.local_defs(f, 'num_parts') if isinstance(v, ast.AST)]
